@@ -21,7 +21,7 @@ func checkC03(w *World, r *Report) {
 	}
 	// an error that travels through a future is still the error its body raised, for every reader
 	r.include("C03.future-", "C10.", "an error raised in a future's body reaches every catch around a deref unchanged and as an error", checkC10, func(rule string) bool {
-		return rule == "C10.redeposit" || rule == "C10.single-outcome" || rule == "C10.outcome-own"
+		return rule == "C10.redeposit" || rule == "C10.single-outcome" || rule == "C10.outcome-own" || rule == "C10.deref-waits"
 	})
 	errorIsRule(w, r, "C03.is")
 	oneErrorTypeRule(w, r, "C03.one-error-type")
@@ -1189,6 +1189,13 @@ func checkC12(w *World, r *Report) {
 	r.include("C12.template-", "C02.", "the maps, lists and vectors of a template (and a macro's operands) are objects of the program text itself: no builtin writes into a value it was handed, so evaluating a template twice yields the same form twice", checkC02, func(rule string) bool {
 		return rule == "C02.write"
 	})
+	// the expansion of a template is a chain of cons/concat/vec calls: what those builtins are handed must be the
+	// values the template's parts evaluated to, not what another call of the same builtin left in shared storage
+	r.rule("C12.adapter-state", "a template is built by builtin calls (cons, concat, vec): the adapter of a registered builtin keeps nothing writable between calls, so the elements one expansion collects are not replaced by those of another evaluation running the same builtin (shared with C10.adapter-state)")
+	capturedStateRule(w, r, e, "C12.adapter-state")
+	// a splice puts all the elements of its value in place: concat walks all of its arguments (an empty splice in
+	// the middle of a template does not end it)
+	argLoopCompleteRule(w, r, "C12.splice-all")
 	r.rule("C12.unevaluated", "the argument slice handed to the macro function in the expansion loop is a projection (elements from index 1) of the call form: operands are passed unevaluated")
 	r.rule("C12.caller-scope", "the expansion replaces the form before the dispatch, in the caller's scope: macroexpand is called with the current scope, passes that scope to the macro test and to the lookup, and the scope is not changed between expansion and dispatch")
 	r.rule("C12.fixpoint", "macroexpand loops while the macro test holds on the updated form and returns that form; the macroexpand and quasiquoteexpand special forms return expansions unevaluated")
@@ -2419,7 +2426,8 @@ func checkC18(w *World, r *Report) {
 	handled := map[int64]bool{}
 	for _, b := range m.EVAL.Blocks {
 		if iff := blockIf(b); iff != nil {
-			if bo, ok := iff.Cond.(*ssa.BinOp); ok && bo.Op == token.EQL && cmdT != nil && types.Identical(bo.X.Type(), cmdT.Type()) {
+			// (cmd == K taken care of in a branch, or cmd != K standing in front of what is left)
+			if bo, ok := iff.Cond.(*ssa.BinOp); ok && (bo.Op == token.EQL || bo.Op == token.NEQ) && cmdT != nil && types.Identical(bo.X.Type(), cmdT.Type()) {
 				if k, ok := bo.Y.(*ssa.Const); ok && k.Value != nil {
 					handled[k.Int64()] = true
 				}
